@@ -235,6 +235,9 @@ def run(ctx):
                       "ranking does not go through sortDescWithKillPrefs: " + t[:100])
 
     kill_preference_reader(ctx)
+    # the marks are read afresh on every tick (the cached preference does not survive CgroupContext::refresh)
+    from .C15 import refresh_keeps_nothing
+    refresh_keeps_nothing(ctx)
 
     # ---- 5. DFS in resumeTryingToKillSomething
     rts = ctx.fn1("Oomd::BaseKillPlugin::resumeTryingToKillSomething")
